@@ -1,11 +1,34 @@
 """C16 configuration (see lib/propcfg.py for the meaning of the keys)."""
 CFG = dict(
-    disabled=True,
-    models=[("gen", "Gen_ByteClass"), ("model", "Lexer")],
-    proofs=[],
+    models=[("gen", "Gen_Consts"), ("gen", "Gen_Token"), ("gen", "Gen_ByteClass"), ("model", "Lexer")],
+    proofs=[("proofs", "Lexer_proofs")],
     extract="Extract_Lexer", module="lexer_model", driver="drv_C16.ml", ocaml_extra=["nathelpers.ml", "zhelpers.ml"],
-    trusted_base=[],
-    level_text="under construction",
-    level_note="",
-    assumptions=[],
+    trusted_base=[
+        "Go: string(byte)/strings.Builder.WriteRune = UTF-8 encoding (utf8.AppendRune), strings.TrimSpace, slicing of []byte; "
+        "modelled by hand (encode_rune, trim_space) and compared with the real functions on every generated case",
+        "the switch of NextToken (which bytes lead to which return statement) is hand-modelled (Lexer.classify); the tables it "
+        "consults (single/two character tokens, keywords, byte predicates, single-character escapes) are generated from the Go source",
+    ],
+    level_text="Proved in Coq for every byte string and both lexer modes (no length bound), about coq/model/Lexer.v = lexer.go after five "
+               "repairs (malformed exponent, second dot, NUL byte, unterminated string in file mode; plus the \\a\\b\\f\\v escapes added for C02): "
+               "C16_tiling (lex_all = body ++ [end marker]; tokens in input order from 0, spans non-empty, pairwise disjoint, inside the input, "
+               "only whitespace between them, every non-whitespace byte before the end marker covered; the end marker stands at the end of input "
+               "or, line mode only, on an unterminated string = continuation), C16_tiling_file_mode (file mode: every non-whitespace byte is in "
+               "exactly one token), C16_literal_is_span (identifiers, keywords, numbers, operators), C16_string_span (delimiters + body, literal = "
+               "decoded body, relation str_body incl. \\x \\u \\U as UTF-8), C16_line_comment_span (// to newline/end, literal = TrimSpace(span), a prefix), "
+               "C16_block_comment_span (to the first */ or the end of input), C16_illegal_span, C16_end_marker (<= |s|+1 tokens, then returned by every "
+               "later call), C16_keywords_not_idents, C16_no_abnormal_token (no nil token, no slice panic), C16_intern_functional_injective (explicit "
+               "interning table: same object iff same (type, literal) after any history). All full, none partial. Tie: byte predicates, token tables, "
+               "keywords and escapes are regenerated from the Go source; model and lexer.NextToken/Pos/HadWhitespace/HadNewline agree on every "
+               "string of length <= 2 over all 256 bytes and of length <= 3 (quick) / 4 (thorough) over a 27-symbol alphabet in both modes, random "
+               "longer inputs and mutated examples; a model-free oracle (rebuild the input from gaps + token texts, per-kind literal/span relation, "
+               "sticky end marker, pointer identity) runs beside it.",
+    level_note="Trusted: Coq kernel, extraction (ExtrOcamlBasic), OCaml driver, Go harness, translator; axioms: none (Print Assumptions: closed). "
+               "The Go lexer itself is modelled, not verified. Side conditions on the generated data (p(0)=false for every loop predicate, every "
+               "byte the switch sends to a constant token has a table entry of operator type, keyword types are not IDENT, notEOL stops only at "
+               "newline/NUL) are re-proved by vm_compute/reflexivity on every run.",
+    assumptions=["bytes are N (no <256 bound needed by the theorems); positions are nat",
+                 "the interning theorem is about an explicit table model (association list, objects numbered in allocation order), "
+                 "tied to token.Intern by the pointer-identity oracle over the whole run",
+                 "lexer reached through New/NewBytes/NewLineMode + NextToken only (fields unexported)"],
 )
